@@ -137,6 +137,22 @@ type srvH struct {
 	rawIn   [][]byte
 	readErr error
 	rdDone  chan struct{}
+	pause   chan struct{} // while non-nil the raw client does not read (stalls the server's writer)
+}
+
+func (h *srvH) pauseReads() {
+	h.mu.Lock()
+	h.pause = make(chan struct{})
+	h.mu.Unlock()
+}
+
+func (h *srvH) resumeReads() {
+	h.mu.Lock()
+	if h.pause != nil {
+		close(h.pause)
+		h.pause = nil
+	}
+	h.mu.Unlock()
 }
 
 // newSrvH starts ServeConn on an in-memory connection and performs the version
@@ -179,6 +195,12 @@ func (h *srvH) reader() {
 	var acc []byte
 	buf := make([]byte, 1<<16)
 	for {
+		h.mu.Lock()
+		p := h.pause
+		h.mu.Unlock()
+		if p != nil {
+			<-p
+		}
 		n, err := h.cli.Read(buf)
 		acc = append(acc, buf[:n]...)
 		for len(acc) >= 4 {
